@@ -907,11 +907,14 @@ def run_real(ctx, n_db, n_hist, n_shapes):
             n0 = len(ctx.oracle_failures)
             check_db_file(ctx, p, {"t": live_columns(p, "t")}, {"shape": shape, "seed": ctx.seed, "tag": f"shape{i}"})
             C.keep_failing_files(ctx, n0, p)
-        kinds = ["plain", "rootmove", "ddl", "plain", "overflow_inplace", "rootmove", "ddl", "grow_shrink", "spill", "checkpoint_restart", "fresh_wal"]
+        kinds = ["deep_append", "plain", "rootmove", "ddl", "plain", "overflow_inplace", "rootmove", "ddl", "grow_shrink", "spill", "checkpoint_restart", "fresh_wal"]
         for i in range(n_hist):
             cfg = F.random_cfg(r, page_sizes=[512, 1024, 4096], small=True)
             cfg["auto_vacuum"] = [0, 1, 2][i % 3]
             kind = kinds[i % len(kinds)]
+            if kind == "deep_append":
+                cfg["page_size"] = 512       # a three-level table b-tree with few rows
+                cfg["auto_vacuum"] = 0
             try:
                 h = H.make_history(sc.path(f"c10h{i}"), cfg, r, kind=kind)
             except sqlite3.Error as e:
@@ -938,7 +941,7 @@ def check_history(ctx, h, case):
     n0 = len(ctx.oracle_failures)
     seen = set()
     # count_logical: distinct rows by content — an overflow chain that moves gives one row two cell images
-    case = dict(case, count_logical=(h.kind in ("plain", "ddl") and h.cfg["auto_vacuum"] == 0))
+    case = dict(case, count_logical=(h.kind in ("plain", "ddl", "deep_append") and h.cfg["auto_vacuum"] == 0))
     for k in sorted(vh.versions):
         v = vh.versions[k]
         if k and not v.master_schema_modified:
